@@ -442,10 +442,45 @@ func (C07) Execute(t *testing.T, sc *core.Scenario) *core.Result {
 			if persisted.IsEmpty() && dangles {
 				whyDangles = "store-root-empty"
 			}
+			// The model's idea of what the store holds can lag behind the store: a chunk that was put,
+			// written to the journal and never committed is gone for the model after a reopen, but the
+			// journal still has its record and the store still serves it. What decides whether a child is
+			// absent is the store, asked before the addition; only children it does not have make the
+			// file dangle for the reason "child-absent".
+			var absentKids []string
+			if dangles && whyDangles == "child-absent" {
+				reallyAbsent, uncommitted := false, false
+				for _, ci := range idx {
+					for _, k := range u.Chunks[ci].Kids {
+						ki, ok := u.ByAddr[k]
+						if ok && (durable[ki] || inFile[ki]) {
+							continue
+						}
+						if ok && pending[ki] {
+							uncommitted = true
+							continue
+						}
+						has, herr := st.Has(ctx, k)
+						if herr == nil && has {
+							res.Probe("child_unknown_to_the_model_but_in_the_store")
+							continue
+						}
+						reallyAbsent = true
+						absentKids = append(absentKids, fmt.Sprintf("chunk #%d -> child %s (store.Has: %v %v)", ci, short(k), has, herr))
+					}
+				}
+				switch {
+				case reallyAbsent:
+				case uncommitted:
+					whyDangles = "child-uncommitted"
+				default:
+					dangles, whyDangles = false, ""
+				}
+			}
 			err = st.AddTableFilesToManifest(ctx, files, GetAddrsCurry)
 			if err == nil {
 				if dangles {
-					res.Violate("dangling-table-file-accepted", "why="+whyDangles, i, "AddTableFilesToManifest accepted a file whose chunks reference chunks that are in no table file (%s)", whyDangles)
+					res.Violate("dangling-table-file-accepted", "why="+whyDangles, i, "AddTableFilesToManifest accepted a file whose chunks reference chunks that are in no table file (%s) %v", whyDangles, absentKids)
 					if taint == "" {
 						taint = ";tainted-by=dangling-table-file(" + whyDangles + ")"
 					}
